@@ -334,3 +334,37 @@ def world_histories(ctx, n_hist, steps, extra_ops=True):
                 hi.on("obs", "full")
         out.append((list(g.lines), dict(hi.ops)))
     return out
+
+
+def add_corpus(pid, sc):
+    """corpus/<pid>/*.txt: minimised past failures / witnesses, always run first"""
+    d = os.path.join(vlib.VERIF, "corpus", pid)
+    if not os.path.isdir(d):
+        return
+    for f in sorted(os.listdir(d)):
+        if not f.endswith(".txt"):
+            continue
+        start = len(sc.lines)
+        for l in open(os.path.join(d, f)):
+            l = l.strip()
+            if l and not l.startswith("#"):
+                sc.add(l)
+        sc.cases.append((start, len(sc.lines) - 1, "corpus " + f))
+
+
+READD = ["begin", "T hdr 1 0", "T body 1", "T hdr 2 1", "T inv 1 p", "T rm 1", "T hdr 1 0", "T hdr 2 1"]
+
+
+def known_finding_readd(ctx, harness):
+    """the finding excluded from the checked domain (a block re-added while carrying FAILED_POP aborts the next
+    child header): reproduced with the guard off ONLY when it is listed in known_findings.txt, so that it is reported
+    as KNOWN-FINDING and never as a violation of the unchanged tree"""
+    if not any(k == "readd-failed-pop" for (_, k, _) in ctx.findings):
+        return
+    inp = os.path.join(ctx.work, "readd.txt")
+    with open(inp, "w") as f:
+        f.write("\n".join("k%d %s" % (i + 1, l) for i, l in enumerate(READD)) + "\n")
+    rc, out, orc, err = vlib.run_lines([harness], inp, timeout=300, env={"VERIF_NOGUARD": "1"})
+    if rc != 0 or orc:
+        ctx.violation({"kind": "ops", "script": READD, "what": "acceptBlockHeader below a block re-added while carrying "
+                       "BLOCK_FAILED_POP aborts (raiseValidity assert)", "stderr": err[-300:]}, key="readd-failed-pop")
